@@ -23,7 +23,7 @@ RULE = (
 ASSUMPTIONS = ["the model computes in int64 and returns values < 1021, so float32 storage is exact", "models output one future step (the library asserts future_steps == 1)"]
 CONFIG = {
     "quick": {"examples": 1280, "shards": 16, "shrink_s": 40, "time_budget_s": 240},
-    "thorough": {"examples": 16000, "shards": 16, "shrink_s": 200, "time_budget_s": 1500},
+    "thorough": {"examples": 140000, "shards": 16, "shrink_s": 200, "time_budget_s": 1500},
 }
 P = 1021
 
